@@ -22,6 +22,9 @@ theorem quote_table_free_ok : Generated.quoteFree.all litOK = true := by decide 
 /-- every path of a template that starts with `::` starts at `::core` -/
 theorem quote_table_abs_roots_core : Generated.quoteAbsRoots.all (· == "core") = true := by decide +kernel
 
+/-- no template writes a path relative to the user's crate or module (`crate::..`, `super::..`, `self::..`) -/
+theorem quote_table_no_relative_paths : Generated.quoteRelRoots = [] := by decide +kernel
+
 /-- templates that consist of a single identifier: beside what `litOK` admits, the two formatter methods that are spliced
 behind `__f.` (the model writes them through `dotM`) and the attribute path `derive_ex` the expander compares attributes
 with (not generated code) -/
